@@ -9,7 +9,8 @@
    about an input class where the current code deviates (coincident samples). *)
 From Coq Require Import List ZArith QArith Qcanon Floats Permutation.
 From TK Require Import Mat_Sums Mat_Qc Knn_Spec Tsne_Model Tsne_Vp_Model Tsne_Sym_Model Tsne_Spec
-  Tsne_Proof_Dense Tsne_Proof_KL Tsne_Proof_Perp Tsne_Proof_K Tsne_Proof_Vp Tsne_Proof_Sym Tsne_Proof_Sym2 Tsne_Proof_SymSpec Tsne_Proof_Csr Tsne_BH_Model Tsne_Proof_BH.
+  Tsne_Proof_Dense Tsne_Proof_KL Tsne_Proof_Perp Tsne_Proof_K Tsne_Proof_Vp Tsne_Proof_Sym Tsne_Proof_Sym2 Tsne_Proof_SymSpec Tsne_Proof_Csr Tsne_BH_Model Tsne_Proof_BH
+  Tsne_PerpRed_Model Tsne_Proof_PerpRed Tsne_Proof_Converge.
 From TK Require QuadTree_Model QuadTree_Spec QuadTree_SpecExec QuadTree_Proof_Gradient QuadTree_Proof_Final.
 Import ListNotations.
 
@@ -188,6 +189,56 @@ Print Assumptions perplexity_bisection_halves.
 
 Example perplexity_bracket_nonvacuous : bracket (1%Q, None, None).
 Proof. exact bracket_init. Qed.
+
+(* CONVERGENCE of the search (wave 2; the half that perplexity_row_defined_partial leaves open), for every exp / log
+   oracle under which the row entropy h(beta) = e_H (evaluate self dd beta) is non-increasing in beta (0 < b1 <= b2 ->
+   h b2 <= h b1) and within tol of log(perplexity) on a window [lo, hi], 0 < lo <= hi: if the window's octave is
+   reached by k doublings / halvings from 1 (lo <= 2^k, 1 <= hi 2^k), nb + 1 bisection steps shrink a bracket of
+   width < lo below the window's width (lo <= (hi - lo) 2^(nb+1)) and k + nb + 4 <= 200, the loop exits with found =
+   true and the row in memory has entropy within tol of log(perplexity).  Monotonicity and the window are the
+   oracle contract (for the true exp / log: analysis), exactly as everywhere else in this slice. *)
+Theorem perplexity_converges : forall (expf logf : Q -> Q) (dbl_min tol : Q) self dd perp (lo hi : Q),
+  (0 < tol)%Q -> (0 < lo)%Q -> (lo <= hi)%Q ->
+  (forall b1 b2, 0 < b1 -> b1 <= b2 ->
+     hfun expf logf dbl_min self dd b2 <= hfun expf logf dbl_min self dd b1)%Q ->
+  (forall b, (lo <= b)%Q -> (b <= hi)%Q -> Qabs_lt (hfun expf logf dbl_min self dd b - logf perp) tol) ->
+  forall nb, (lo <= (hi - lo) * p2 (S nb))%Q ->
+  forall k, (lo <= p2 k)%Q -> (1 <= hi * p2 k)%Q -> (k + nb + 4 <= 200)%nat ->
+  exists ev, perp_search expf logf dbl_min tol self dd perp = (true, Some ev) /\
+             (exists beta, ev = evaluate expf logf dbl_min self dd beta) /\ entropy_within logf tol perp ev.
+Proof. exact perp_search_converges_thm. Qed.
+Print Assumptions perplexity_converges.
+
+Example perplexity_converges_nonvacuous :
+  (0 < (1 # 4) /\ 0 < 3 - (1 # 8) /\ 3 - (1 # 8) <= 3 + (1 # 8) /\
+  (forall b1 b2, 0 < b1 -> b1 <= b2 ->
+     hfun (fun _ => 1) cv_logf 0 None [- (1); - (1)] b2 <= hfun (fun _ => 1) cv_logf 0 None [- (1); - (1)] b1) /\
+  (forall b, 3 - (1 # 8) <= b -> b <= 3 + (1 # 8) ->
+     Qabs_lt (hfun (fun _ => 1) cv_logf 0 None [- (1); - (1)] b - cv_logf 5) (1 # 4)) /\
+  3 - (1 # 8) <= ((3 + (1 # 8)) - (3 - (1 # 8))) * p2 (S 3) /\
+  3 - (1 # 8) <= p2 2 /\ 1 <= (3 + (1 # 8)) * p2 2 /\ (2 + 3 + 4 <= 200)%nat /\
+  fst (perp_search (fun _ => 1) cv_logf 0 (1 # 4) None [- (1); - (1)] 5) = true)%Q.
+Proof. exact perp_search_converges_nonvacuous. Qed.
+
+(* the search the check RUNS (extracted; every kept number passed through Qred so that 200 bisection steps fit in
+   memory) is the search the theorems above are about: same `found`, same row up to Qeq, for every oracle that is a
+   function of the value of its argument *)
+Theorem perplexity_reduced_model_equiv : forall (expf logf : Q -> Q) (dbl_min tol : Q),
+  (forall x y, (x == y)%Q -> (expf x == expf y)%Q) -> (forall x y, (x == y)%Q -> (logf x == logf y)%Q) ->
+  forall self dd perp,
+  fst (perp_row_r expf logf dbl_min tol self dd perp) = fst (perp_search expf logf dbl_min tol self dd perp) /\
+  match snd (perp_row_r expf logf dbl_min tol self dd perp), perp_row expf logf dbl_min tol self dd perp with
+  | Some (_, r), Some r' => Forall2 Qeq r r'
+  | None, None => True
+  | _, _ => False
+  end.
+Proof. exact perp_row_r_equiv_thm. Qed.
+Print Assumptions perplexity_reduced_model_equiv.
+
+Example perplexity_reduced_model_equiv_nonvacuous :
+  (forall x y : Q, (x == y)%Q -> ((fun _ : Q => 1) x == (fun _ : Q => 1) y)%Q) /\
+  (forall x y : Q, (x == y)%Q -> ((fun _ : Q => 0) x == (fun _ : Q => 0) y)%Q).
+Proof. exact perp_red_oracles_nonvacuous. Qed.
 
 (* ---------------------------------------------------------------- K *)
 
